@@ -178,7 +178,13 @@ func runHist(c *runCtx) {
 			fileModel = []byte{} // a missing file is created empty
 		}
 		E := entries(fileModel)
-		// the new session must load exactly the entries of the file
+		// the new session must load exactly the entries of the file - the most recent --history-size of them if
+		// the file holds more (written by hand, by another program or under a larger limit): the statement caps
+		// what a session loads, and its quantifier names initial contents longer than the limit
+		if len(E) > plan.Max {
+			E = E[len(E)-plan.Max:]
+			c.count("probe.loaded_file_over_limit", 1)
+		}
 		loaded := h.lines[:len(h.lines)-1]
 		if strings.Join(loaded, "\n") != strings.Join(E, "\n") || len(loaded) != len(E) {
 			c.violate("hist.load", "session %d loaded %q, file holds %q", si, clipAll(loaded), clipAll(E))
